@@ -39,7 +39,11 @@ void pv_msan_unpoison(const void* p, size_t n) { __msan_unpoison(p, n); }
  * monitors themselves are never attributed to the library (C18 wraps) */
 extern bool pv_static_probe_in_callbacks; void pv_static_stub_probe(void);
 #define STUB_ENTER int _saved = pv_in_lib; pv_in_lib = 0; pv_world* w = pv_w; if (pv_static_probe_in_callbacks) pv_static_stub_probe(); maybe_yield(w)
-#define STUB_LEAVE pv_in_lib = _saved
+/* a callback may leave any errno behind (a read() loop that was interrupted and resumed leaves EINTR although it delivered everything):
+ * every monitor returns with a rotating, mostly non-zero errno */
+static __thread unsigned stub_errno_rot;
+static const int STUB_ERRNO[] = { EINTR, 0, EAGAIN, ERANGE, EINTR, ENOMEM, EOVERFLOW, EINVAL };
+#define STUB_LEAVE do { pv_in_lib = _saved; errno = STUB_ERRNO[stub_errno_rot++ % (sizeof STUB_ERRNO / sizeof *STUB_ERRNO)]; } while (0)
 
 static void maybe_yield(pv_world* w) {
     if (w->yield_pct && pv_randn(&w->yield_rng, 100) < (uint32_t)w->yield_pct) {
